@@ -16,6 +16,7 @@ ASSUMPTIONS = ["effective options are observed through spies on convert_file_to_
 ARGS = [None, True, False]
 FLAGVALS = [0, 1]
 BASE = "http://base.example/dir/"
+XBASE = "http://other.example/sub/"
 PROBE_MARKUP = '<a href="rel/x" onclick="evil()">t</a><a href="javascript:x">j</a>'
 EXPECT = {  # (sanitize, resolve, allowlist_default) -> value
     (False, False, True): PROBE_MARKUP,
@@ -42,6 +43,11 @@ def probe_docs():
                  '<content type="html">%s</content></entry></feed>' % m).encode(),
         "atom-cdata": ('<feed xmlns="http://www.w3.org/2005/Atom"><title>t</title><link href="feedlink"/><entry><link href="itemlink"/>'
                        '<summary type="html"><![CDATA[%s]]></summary></entry></feed>' % PROBE_MARKUP).encode(),
+        # a subtree re-based with xml:base: element-level URIs inside it are resolved against the base in scope whatever resolve_relative_uris says
+        "atom-xmlbase": ('<feed xmlns="http://www.w3.org/2005/Atom"><title>t</title><link href="feedlink"/><entry xml:base="%s"><link href="itemlink"/>'
+                         '<content type="html">%s</content></entry></feed>' % (XBASE, m)).encode(),
+        "rss-xmlbase": ('<rss version="2.0"><channel><title>t</title><link>feedlink</link><item xml:base="%s"><link>itemlink</link>'
+                        '<description>%s</description></item></channel></rss>' % (XBASE, m)).encode(),
     }
 
 
@@ -157,6 +163,8 @@ def check_config(docname, args, flags, ad, first=None):
         run_config(docs[docname], *first)
     obs = run_config(docs[docname], args, flags, ad)
     s, r, o = expected_eff(args, flags)
+    ebase = XBASE if docname.endswith("xmlbase") else BASE
+    EXPECT = {k: v.replace(BASE, ebase) for k, v in globals()["EXPECT"].items()}
     w = {"doc": docname, "args": list(args), "flags": list(flags), "allow_default": ad, "first": first}
     pre = "after a call with %r: " % (first,) if first else ""
     if obs["value"] != EXPECT[(s, r, ad)]:
@@ -168,7 +176,7 @@ def check_config(docname, args, flags, ad, first=None):
     if obs["optimistic"] != o:
         return Finding(("option", "optimistic", "leak" if first else "grid"), w,
                        "%soptimistic_encoding_detection=%r with flag %r: convert_file_to_utf8 received %r" % (pre, args[2], flags[2], obs["optimistic"]))
-    if obs["entry_link"] != BASE + "itemlink" or obs["feed_link"] != BASE + "feedlink":
+    if obs["entry_link"] != ebase + "itemlink" or obs["feed_link"] != BASE + "feedlink":
         return Finding(("option", "element-uri"), w, "element-level link not resolved: entry %r feed %r" % (obs["entry_link"], obs["feed_link"]))
     if tuple(obs["flags_after"]) != tuple(flags):
         return Finding(("option", "flags-written"), w, "parse() changed the module flags to %r" % (obs["flags_after"],))
@@ -177,7 +185,7 @@ def check_config(docname, args, flags, ad, first=None):
 
 def search(ctx, focus=None):
     failures, n, distinct = [], 0, set()
-    for docname in ("rss", "atom", "atom-cdata"):
+    for docname in ("rss", "atom", "atom-cdata", "atom-xmlbase", "rss-xmlbase"):
         for args, flags, ad in grid():
             n += 1
             distinct.add((docname, args, flags, ad))
@@ -208,7 +216,7 @@ def search(ctx, focus=None):
         if f:
             failures.append(f)
     return {"evaluations": n, "distinct_nontrivial": len(distinct), "failures": failures, "exhaustive": True,
-            "rule": "all 27 argument triples x 8 flag triples x scheme allow-list {default, ()} on three probe documents (RSS escaped, Atom escaped, Atom CDATA), "
+            "rule": "all 27 argument triples x 8 flag triples x scheme allow-list {default, ()} on five probe documents (RSS escaped, Atom escaped, Atom CDATA, Atom / RSS with the entry re-based by xml:base), "
                     "each compared with the value constructed from the probe (event-handler attribute present iff sanitize off; embedded relative href resolved iff "
                     "resolve on; javascript: href blanked iff allow-list default; element links always resolved; flags unchanged afterwards); plus call pairs "
                     "(all 64 flag-change pairs with None arguments + %s random/strided pairs) and exotic truthy/falsy flag values; every configuration is distinct" % ("strided" if ctx.thorough else pairs),
